@@ -14,6 +14,7 @@ require (
 	github.com/multiformats/go-multiaddr v0.16.0
 	github.com/multiformats/go-multihash v0.2.3
 	github.com/multiformats/go-multistream v0.6.1
+	github.com/quic-go/quic-go v0.59.0
 	golang.org/x/tools v0.41.0
 	google.golang.org/protobuf v1.36.6
 )
